@@ -35,7 +35,9 @@ Skeletons == SubSeq(LongSkeletons, 1, LongN) \o
      <<"Integer", <<TX("cs/any(x: x/n eq "), HA, TX(")")>>>>, <<"Integer", <<TX("a/p eq "), HA, TX(" or n in ("), HB, TX(",)")>>>>,
      <<"Integer", <<TX("substring(s, "), HA, TX(") eq 'k'")>>>>, <<"Integer", <<TX("length(s) eq "), HA, TX(" sub "), HB>>>>,
      <<"Float", <<TX("f lt "), HA>>>>, <<"Float", <<TX("f mul "), HA, TX(" gt "), HB>>>>, <<"Float", <<TX("round(f) eq "), HA>>>>,
-     <<"String", <<TX("s eq "), HA>>>>, <<"String", <<TX("contains(s, "), HA, TX(")")>>>>, <<"String", <<TX("startswith(s, "), HA, TX(")")>>>>,
+     <<"String", <<TX("s eq "), HA>>>>, <<"String", <<HA, TX(" eq concat(s, "), HB, TX(")")>>>>, <<"String", <<HA, TX(" eq substring(s, 2)")>>>>,
+     <<"String", <<TX("not ("), HA, TX(" ne tolower(concat("), HB, TX(", s)))")>>>>, <<"Integer", <<HA, TX(" eq indexof(s, 'wi')")>>>>,
+     <<"String", <<TX("2 eq indexof(s, "), HA, TX(")")>>>>, <<"String", <<TX("contains(s, "), HA, TX(")")>>>>, <<"String", <<TX("startswith(s, "), HA, TX(")")>>>>,
      <<"String", <<TX("endswith(s, "), HA, TX(") eq true")>>>>, <<"String", <<TX("concat(s, "), HA, TX(") eq "), HB>>>>,
      <<"String", <<TX("indexof(s, "), HA, TX(") eq 1")>>>>, <<"String", <<TX("s in ("), HA, TX(", "), HB, TX(")")>>>>,
      <<"String", <<TX("tolower("), HA, TX(") eq s")>>>>, <<"String", <<TX("substring(s, 1) eq "), HA>>>>,
